@@ -103,7 +103,8 @@ def mag (b : UInt64) : Nat := magOfBits b64 (absBits b)
 /-- `f == 0.0` -/
 def isZero (b : UInt64) : Bool := absBits b == 0
 
-def neg (b : UInt64) : UInt64 := b ^^^ 0x8000000000000000
+/-- flip the sign bit (adding `2^63` modulo `2^64` is the same as xor-ing it) -/
+def neg (b : UInt64) : UInt64 := b + 0x8000000000000000
 end F64
 
 /-- IEEE-754 round-to-nearest-even of the rational `±num/den` (`den > 0`) to binary64; `none` when the
@@ -169,7 +170,8 @@ namespace F32
 def roundOrInf (neg : Bool) (num den : Nat) : UInt32 := (roundNE32 neg num den).getD (inf neg)
 /-- `n as f32` for an unsigned integer -/
 def ofU64 (n : Nat) : UInt32 := roundOrInf false n 1
-def neg (b : UInt32) : UInt32 := b ^^^ 0x80000000
+/-- flip the sign bit -/
+def neg (b : UInt32) : UInt32 := b + 0x80000000
 end F32
 
 /-- Rust `x as f32` for `x : f64`: one rounding to nearest-even, overflow to `±∞`, NaN stays NaN -/
